@@ -13,6 +13,7 @@ from __future__ import annotations
 
 import itertools
 import math
+import os
 
 import numpy as np
 
@@ -20,6 +21,16 @@ from vf import imgtruth as T
 
 PROPERTY = "C13"
 LEVEL = "exploration"
+
+# ======================================================================================================================
+# SWITCH  C13_2_APPLIED — flip to True in the same commit that applies fixes/C13-2-max-shift-mask-biases-refinement.diff
+# to /repo.  False: shifts next to the max_shift radius are judged with the relaxed bounds the unrepaired code achieves
+# (zero-filled excluded lags bias the parabolic fit by up to 0.49 px at up=1).  True: they are judged with the usual
+# bounds (integer shifts exact at working precision, sub-pixel 1/up, up=1 0.5 px).  VERIF_C13_2_APPLIED=0/1 overrides.
+C13_2_APPLIED = False
+if os.environ.get("VERIF_C13_2_APPLIED") in ("0", "1"):
+    C13_2_APPLIED = os.environ["VERIF_C13_2_APPLIED"] == "1"
+# ======================================================================================================================
 ANCHOR_FILES = [
     "quantem/core/utils/imaging_utils.py",
     "quantem/tomography/utils.py",
@@ -65,7 +76,6 @@ REQUIRED_COUNTERS = [
     "eval:aligned_not_translation_by_returned_shift_int_f64",
     "eval:aligned_not_reference_sub_up8",
     "eval:fft_variant_disagrees_int_f64",
-    "eval:shift_error_near_search_radius_sub_up1",
     "eval:shift_error_near_search_radius_sub_up8",
     "eval:history_shift_error_int_f32",
     "eval:history_shift_error_sub_up8",
@@ -82,7 +92,20 @@ INT_CLASSES = ("zero", "int", "int_edge", "int_far")
 
 def plan(tier, seed):
     specs = []
-    reps = 2 if tier == "quick" else 360
+    # cheap history / call-site cases first, so a time-budget cut on a loaded machine only trims the big estimator matrix
+    hreps = 2 if tier == "quick" else 60
+    k = 0
+    for rep in range(hreps):
+        for be, up, sc in itertools.product(BACKENDS, UPS, ["int", "sub"]):
+            k += 1
+            fam = "env" if (be == "torch" and up <= 2 and sc == "sub") else ["gauss", "env"][(k + rep) % 2]
+            dt = (["float64", "float32"] if be == "numpy" else ["float32", "float64"])[(k // 2 + rep) % 2]
+            specs.append({"kind": "history", "backend": be, "up": up, "sclass": sc, "shape": SHAPES[(k + rep) % len(SHAPES)], "dtype": dt, "family": fam})
+    ncs = 36 if tier == "quick" else 720
+    for r in range(ncs):
+        specs.append({"kind": "tomo", "sclass": ["int", "sub"][r % 2], "shape": SHAPES[(r // 2) % len(SHAPES)]})
+        specs.append({"kind": "dptycho", "sclass": ["int", "sub", "int_far"][r % 3], "shape": SHAPES[(r // 2) % len(SHAPES)], "up": [1, 2, 4, 8, 3, 16][(r // 3) % 6], "dtype": ["float32", "float64"][(r // 6) % 2]})
+    reps = 2 if tier == "quick" else 140
     k = 0
     for rep in range(reps):
         for be, up, sc, shp in itertools.product(BACKENDS, UPS, SCLASSES, SHAPES):
@@ -101,18 +124,6 @@ def plan(tier, seed):
             else:
                 dt = ["float32", "float64"][(k // 2 + rep) % 2]
             specs.append({"kind": "est", "backend": be, "up": up, "sclass": sc, "shape": shp, "dtype": dt, "family": fam})
-    hreps = 2 if tier == "quick" else 60
-    k = 0
-    for rep in range(hreps):
-        for be, up, sc in itertools.product(BACKENDS, UPS, ["int", "sub"]):
-            k += 1
-            fam = "env" if (be == "torch" and up <= 2 and sc == "sub") else ["gauss", "env"][(k + rep) % 2]
-            dt = (["float64", "float32"] if be == "numpy" else ["float32", "float64"])[(k // 2 + rep) % 2]
-            specs.append({"kind": "history", "backend": be, "up": up, "sclass": sc, "shape": SHAPES[(k + rep) % len(SHAPES)], "dtype": dt, "family": fam})
-    ncs = 36 if tier == "quick" else 720
-    for r in range(ncs):
-        specs.append({"kind": "tomo", "sclass": ["int", "sub"][r % 2], "shape": SHAPES[(r // 2) % len(SHAPES)]})
-        specs.append({"kind": "dptycho", "sclass": ["int", "sub", "int_far"][r % 3], "shape": SHAPES[(r // 2) % len(SHAPES)], "up": [1, 2, 4, 8, 3, 16][(r // 3) % 6], "dtype": ["float32", "float64"][(r // 6) % 2]})
     return specs
 
 
@@ -393,12 +404,15 @@ def _run_numpy(spec, idx, ctx, rng, shape, s, im, ref, bw):
     # Judged: finite result, 1/up for up > 1 (all shift classes), gross-error bound 1.5 px for up = 1.
     corners = [float(np.hypot(p, q)) for p in {np.floor(sw[0]), np.ceil(sw[0])} for q in {np.floor(sw[1]), np.ceil(sw[1])}]
     ms_e = max(corners) + float(rng.uniform(0.02, 1.0))
-    tol_e = 1.5 if up <= 1 else 1.0 / up
+    if C13_2_APPLIED:  # repaired code: an admitted shift is estimated exactly as without max_shift -> usual bounds
+        tol_e, k_e = j.tol, kind
+    else:
+        tol_e, k_e = (1.5 if up <= 1 else 1.0 / up), "sub"
     r8 = np.asarray(ccs(a, b, upsample_factor=up, max_shift=ms_e), dtype=np.float64)
-    j.shift(r8, s, shape, "max_shift_edge", base="shift_error_near_search_radius", tol=tol_e, k="sub")
+    j.shift(r8, s, shape, "max_shift_edge", base="shift_error_near_search_radius", tol=tol_e, k=k_e)
     r9, al9 = ccs(Fa, Fb, upsample_factor=up, max_shift=ms_e, fft_input=True, return_shifted_image=True)
     r9 = np.asarray(r9, dtype=np.float64)
-    d9 = j.shift(r9, s, shape, "max_shift_edge+fft_input+image", base="shift_error_near_search_radius", tol=tol_e, k="sub")
+    d9 = j.shift(r9, s, shape, "max_shift_edge+fft_input+image", base="shift_error_near_search_radius", tol=tol_e, k=k_e)
     al9 = np.asarray(al9)
     if d9 is not None and j.check("aligned_bad_type", al9.shape == tuple(shape) and not np.iscomplexobj(al9) and bool(np.all(np.isfinite(al9))), lambda: "aligned image (max_shift near the shift) shape=%s dtype=%s finite=%s" % (al9.shape, al9.dtype, bool(np.all(np.isfinite(al9)))), "max_shift_edge"):
         j.close("aligned_not_translation_by_returned_shift", rel_l2(al9, T.translate(b64, r9)), itol, lambda: "shape=%s returned r=%s (max_shift=%.3f): aligned image is not im translated by +r" % (shape, r9.tolist(), ms_e), "max_shift_edge")
